@@ -138,6 +138,21 @@ theorem crash_points_are_covered :
   have := List.all_eq_true.mp h3 i (List.mem_range.mpr hi)
   simpa using this
 
+open SSEPy.ClientIR in
+/-- … and a SECOND crash while recovering changes nothing: crash in step `i` with budget `k`, issue the workflow again and crash
+    in its step `i2` with budget `k2` (every step, every crash point, the re-issued steps that are refused included), recover:
+    the workflow still ends in a search answered by the index built under the key the token was made with -/
+theorem client_double_crash_recovers :
+    ∀ i, i < 5 → ∀ k, k < 3 → ∀ i2, i2 < 5 → ∀ k2, k2 < 3 →
+      (match crashTwiceThenRecover C 7 i k i2 k2 with | .result e t => e == t | _ => false) = true := by
+  have h : ((List.range 5).all fun i => (List.range 3).all fun k => (List.range 5).all fun i2 => (List.range 3).all fun k2 =>
+      (match crashTwiceThenRecover C 7 i k i2 k2 with | .result e t => e == t | _ => false)) = true := by decide +kernel
+  intro i hi k hk i2 hi2 k2 hk2
+  have h1 := List.all_eq_true.mp h i (List.mem_range.mpr hi)
+  have h2 := List.all_eq_true.mp h1 k (List.mem_range.mpr hk)
+  have h3 := List.all_eq_true.mp h2 i2 (List.mem_range.mpr hi2)
+  exact List.all_eq_true.mp h3 k2 (List.mem_range.mpr hk2)
+
 /-- what is NOT covered by the client theorem: it is about ONE run of the documented workflow with an opaque configuration
     token (the model never inspects the configuration), not about every reachable client history; histories other than the
     documented one are covered for the SERVER half by `restart_then_reference` and for the client by the crash lab on the real
